@@ -74,6 +74,10 @@ TRACES = {
     'l1': dict(driver='l1-drive', module='Trace_L1', mod='l1', runs=dict(quick=12, thorough=150), length=dict(quick=200, thorough=400), timeout=dict(quick=300, thorough=3000),
                inv_tags=dict(Contiguous=['C11'], L2Increasing=['C11'], FinalPrefix=['C11', 'C05'], LastFinalQuery=['C05'], PositivePeriod=['C05'], NoStray=['C01'])),
 }
+TRACES['l2'] = dict(driver='l2-drive', module='Trace_L2', mod='l2', runs=dict(quick=12, thorough=150), length=dict(quick=200, thorough=400), timeout=dict(quick=300, thorough=3000),
+                    inv_tags=dict(SupplyMatchesBalances=['C09', 'C07'], NoStray=['C09', 'C07'], SeqL1Step=['C06'], SeqL2Step=['C09', 'C07'], PairImmutable=['C09'], NoEffectOnReject=['C06', 'C07', 'C09']))
+TRACES['val'] = dict(driver='val-drive', module='Trace_Val', mod='val', runs=dict(quick=10, thorough=120), length=dict(quick=250, thorough=500), timeout=dict(quick=300, thorough=3000),
+                     inv_tags=dict(Halted=['C13'], BatchRejectedByEngine=['C13'], IndexBijective=['C13'], Capacity=['C13'], EngineAgrees=['C13']))
 
 # property -> engines.  `floor`: minimum counts below which the run is considered vacuous (exit 2).
 PROPERTIES = {
@@ -82,17 +86,17 @@ PROPERTIES = {
     'C03': dict(traces=['l1'], families=['l1.claims'], title='withdrawals cannot be forged'),
     'C04': dict(families=['br.one', 'l1.trees'], title='every recorded withdrawal can be claimed'),
     'C05': dict(traces=['l1'], families=['l1.oracle'], title='challenge window / finality'),
-    'C06': dict(families=['l2.relay', 'l2.deposit'], title='L2 credits each deposit exactly once, in order'),
-    'C07': dict(families=['l2.deposit'], title='deposit neither lost nor blocking; hooks contained'),
+    'C06': dict(traces=['l2'], families=['l2.relay', 'l2.deposit'], title='L2 credits each deposit exactly once, in order'),
+    'C07': dict(traces=['l2'], families=['l2.deposit'], title='deposit neither lost nor blocking; hooks contained'),
     'C08': dict(families=['br.one'], title='end-to-end solvency'),
-    'C09': dict(families=['l2.deposit'], title='L2 bridged supply conserved'),
+    'C09': dict(traces=['l2'], families=['l2.deposit'], title='L2 bridged supply conserved'),
     'C10': dict(traces=['l1'], families=['l1.ledger'], title='L1 deposit sequences / events'),
     'C11': dict(traces=['l1'], families=['l1.oracle', 'l1.ledger'], title='output oracle log structure'),
-    'C12': dict(traces=['l1'], families=['l1.auth', 'l2.auth', 'val.valset'], title='authorization'),
-    'C13': dict(families=['val.valset'], title='validator set equals what the engine was told'),
-    'C14': dict(families=['val.plan'], title='executor change plan'),
+    'C12': dict(traces=['l1', 'l2'], families=['l1.auth', 'l2.auth', 'val.valset', 'val.plan'], title='authorization'),
+    'C13': dict(traces=['val'], families=['val.valset'], title='validator set equals what the engine was told'),
+    'C14': dict(traces=['val'], families=['val.plan'], title='executor change plan'),
     'C15': dict(families=['or.oracle', 'or.disabled'], title='oracle prices need a signed quorum'),
-    'C16': dict(traces=['l1'], families=['l1.ledger', 'l2.deposit', 'val.valset'], title='genesis round trip'),
+    'C16': dict(traces=['l1', 'l2'], families=['l1.ledger', 'l2.deposit', 'val.valset'], title='genesis round trip'),
     'C17': dict(families=['fmt.formats'], title='commitment formats and purity'),
     'C20': dict(families=['ante.cases'], title='mempool admission'),
     'C18': dict(families=['det.replicas'], title='state transitions are deterministic'),
